@@ -452,6 +452,24 @@ theorem created_node_has_linearised_level (root : Level) (hr : Level.Valid root)
   | format l' hi' => rw [hi] at hi'; cases hi'
   | load p' val hi' ho hl => rw [hi] at hi'; cases hi'
 
+/-- **a location without a node** ("no such location"): `context::get` creates nothing and answers with the level
+stored in the deepest node that exists on the way — which, by `get_eq_latest_prefix`, is the specified level. -/
+theorem get_reads_deepest_existing_node (t : Tree) (loc : Loc) :
+    (deepest t loc).isPrefixOf loc = true ∧ lvlAt t (deepest t loc) = some (getInt t loc) ∧
+    ((lvlAt t loc).isSome = true → deepest t loc = loc) := by
+  refine ⟨deepest_isPrefix t loc, lvlAt_deepest t loc, ?_⟩
+  induction loc generalizing t with
+  | nil => intro _; rfl
+  | cons x xs ih =>
+    intro h
+    unfold deepest
+    rw [lvlAt_cons] at h
+    cases hc : findChild t.kids x with
+    | none => simp [hc] at h
+    | some c =>
+      simp only [hc] at h ⊢
+      rw [ih c (by simpa using h)]
+
 /-- in a state where no `set` is in its store loop (in particular whenever the mutex is free), the tree is
 exactly what the sequential specification says for the linearised history -/
 theorem quiescent_tree_matches_linearisation (root : Level) (hr : Level.Valid root) {s : Sys} (h : Reachable root s)
